@@ -305,7 +305,10 @@ pub fn write_ppm(
         .flatten()
         .map(|c| c.0)
         .try_for_each(|rgb| out.write_all(&rgb[..]));
-    res
+    res?;
+    // Buffering writers, such as the one `save_ppm` passes in, would otherwise
+    // only write their last bytes when dropped, discarding any error
+    out.flush()
 }
 
 /// Parses a numeric value from `src`, skipping whitespace and comments.
